@@ -243,18 +243,46 @@ def mutate_bytes(b, r, tier):
 
 
 def requests_C09gen(docs, emitted, seed, tier):
-    """emitted decoders on adversarial bytes (binary protocol): never panic / abort; nesting bombs on a 2 MiB stack"""
+    """emitted decoders on adversarial bytes: every safe protocol, in-memory and asynchronous, plain and retention builds:
+    never panic / abort / allocate out of proportion; nesting bombs on a 2 MiB stack"""
     r = random.Random(seed * 733 + 9)
     out = doc_lines(docs, emitted)
-    per = 2 if tier == "quick" else 8
+    per = 1 if tier == "quick" else 4
     for d in docs:
         items, types = data_types(d)
+        variants = [d["name"]] + ([d["name"] + "k"] if d["name"] + "k" in emitted else [])
+        args = idlgen.arg_types(d)
         for it in types:
-            for _ in range(per):
-                v = idlgen.gen_item_value(items, it, r, r.randrange(1, 4))
-                b = idlgen.enc_bin(v)
-                for m in mutate_bytes(b, r, tier):
-                    out.append(f"gb {d['name']} {it['name']} bin {m.hex() or '-'}")
+            for vn in variants:
+                keep = vn.endswith("k")
+                if keep and it.get("synth"):
+                    continue
+                for p in ("bin", "le", "cmp"):
+                    # the model of retention decoding is binary only: other protocols on a retention build are oracle-only
+                    # (and what they retain is not binary: the harness's re-encode / re-decode steps make no sense on it)
+                    oo = " nort oracle-only" if keep and p != "bin" else ""
+                    if keep and p == "bin" and args and idlgen.reaches(items, it["name"], lambda x: x["name"] in args and x["kind"] in ("struct", "exception")):
+                        oo = " oracle-only"       # D12 territory (the C13 stream marks the exact inputs; byte strings cannot be)
+                    if idlgen.reaches_union(items, it["name"]):
+                        oo += " has-union"    # (known finding D29 is told apart by this and the panic site)
+                    for _ in range(per):
+                        v = idlgen.gen_item_value(items, it, r, r.randrange(1, 4))
+                        # a newer writer: unknown fields of every wire type in every position (valid input, must decode)
+                        w = idlgen.inject_unknowns(items, ("ref", it["name"]), v, r, 0.5)
+                        if not keep or p == "bin":
+                            out.append(f"gd {vn} {it['name']} {p} {idlgen.sexp(w)} nort{oo}")
+                        else:
+                            out.append(f"gb {vn} {it['name']} {p} {idlgen.ENC[p](w).hex() or '-'}{oo}")
+                        b = idlgen.ENC[p](v)
+                        ms = mutate_bytes(b, r, tier)
+                        if tier == "quick":
+                            ms = r.sample(ms, min(len(ms), 40))
+                        for m in ms:
+                            out.append(f"gb {vn} {it['name']} {p} {m.hex() or '-'}{oo}")
+                        if not keep:
+                            for m in r.sample(ms, min(len(ms), 12 if tier == "quick" else 60)):
+                                chunks = ",".join(str(r.choice([0, 1, 1, 2, 3, 7, 64])) for _ in range(r.randrange(0, 12))) or "-"
+                                out.append(f"gab {vn} {it['name']} {p} {chunks} {m.hex() or '-'}{oo}")
     # nesting bombs for the recursive types of the fixed documents, decoded on a 2 MiB stack (D10)
     for depth in ((50, 500, 3000, 6000) if tier == "quick" else (10, 50, 100, 500, 1000, 2000, 3000, 5000, 10000, 20000)):
         # Tree { 1: list<Tree> kids }: field 1 list<struct> with one element, `depth` times, around an empty struct
